@@ -5,6 +5,7 @@ package dyn
 // the fields of ErrorResponse and the name of the collection metadata record - lives in res_v2.go / res_v1.go.
 
 import (
+	"sync"
 	"strings"
 	"errors"
 	"context"
@@ -86,7 +87,12 @@ type Outcome struct {
 	NilResult bool `json:"nil_result,omitempty"`
 	// GoErr: return this very error object (C08: the object must not be modified by the library)
 	GoErr error `json:"-"`
+	// ShareKey: every invocation scripted with the same non-empty key returns the very same result objects (built by the
+	// first one): resource code may hand out one response object to overlapping requests (C17)
+	ShareKey string `json:"share_key,omitempty"`
 }
+
+var sharedResults sync.Map // ShareKey -> []reflect.Value
 
 type PagingM struct {
 	Start int32  `json:"start"`
@@ -635,6 +641,13 @@ func NewMock(s *schema.Schema, r *schema.Resource, script Script) reflect.Value 
 			}
 			if o.StatusOverride != 0 {
 				inv.Ctx.ResponseStatus = o.StatusOverride
+			}
+			if o.ShareKey != "" {
+				if v, ok := sharedResults.Load(o.ShareKey); ok {
+					return v.([]reflect.Value)
+				}
+				v, _ := sharedResults.LoadOrStore(o.ShareKey, resultValues(s, mi, o, ft, &inv.Call, received))
+				return v.([]reflect.Value)
 			}
 			return resultValues(s, mi, o, ft, &inv.Call, received)
 		}))
